@@ -391,6 +391,10 @@ func RollCoC(src *rand.PCGSource, isBonus bool, diceNum IntType, mode int) (IntT
 
 	for i := IntType(0); i < diceNum; i++ {
 		n := Roll(src, 10, mode)
+		if mode != 0 {
+			// 上/下界模式: 额外的十位骰取0，配合个位才能得到真正的下界01与上界100
+			n = 10
+		}
 
 		if n == 10 {
 			num10Exists = true
